@@ -9,6 +9,7 @@ import Driver.C14
 import Driver.C15
 import Driver.C16
 import Driver.C17
+import Driver.C18
 import Driver.C19
 import Driver.Util
 /-! Line-protocol driver: one request per line `Cxx <op> <args…>`, one answer
@@ -27,6 +28,7 @@ def dispatch (line : String) : String :=
   | "C15" :: args => Driver.C15.handle args
   | "C16" :: args => Driver.C16.handle args
   | "C17" :: args => Driver.C17.handle args
+  | "C18" :: args => Driver.C18.handle args
   | "C19" :: args => Driver.C19.handle args
   | "util" :: args => Driver.Util.handle args
   | ["ping"] => "pong"
